@@ -12,6 +12,14 @@ CHECKS = {
    "Coq theorems (Props/C02.v): for every range of the npm / Cargo grammar outside the listed known classes and every well-formed version without build metadata, the model's membership lies between the two admissible readings of the reference semantics (node-semver desugaring with and without the -0 lower bounds; Cargo intervals) and equals node-semver / Cargo's matches_impl exactly on every release version; Go: exact identity modulo v/+incompatible with pseudo-versions accepted, GitHub Actions and PyPI: one relation for both verdicts, Invalid iff a side does not parse - for all strings. The matcher models are tied to the code by exhaustive-lattice and random correspondence streams (model vs Rust, including junk and non-ASCII strings) and a reference-vs-Rust oracle; PEP 440 is an oracle (pep440_rs) cross-checked against python packaging.",
    "Trusted: Coq kernel; hand-written matcher models (correspondence-checked); the reference specs as renderings of node-semver 7.6.2 range.js and semver 1.0.27 eval.rs; the link parse(print c) = view c between printed ranges and Spec.RangeView is evaluated on every case, not proved; format!(u64)/parse round trip of the standard library; pep440_rs.",
    "DESIGN.md section 8 C02, Appendix A"),
+ "C08": ("proof",
+   "Coq theorems (Props/C08.v): for every finite history of store/tags/mark/claim/release operations on any keys (names are arbitrary byte strings), the row-level model of the SQLite tables refines the abstract per-key map (C08_refines, with the table invariant), every public read is a function of that abstract state, the stored versions are exactly the union of what was stored without duplicates (C08_versions_exact), the tag map is the most recent non-empty one (C08_tags_exact), refresh/missing have their stated characterisations, and operations on other keys never matter (C08_isolated). The SQL text, MIGRATIONS, time constants and transaction brackets the model was written against are regenerated from cache.rs on every run and pinned (Proofs/CachePins.v). The model is tied to the real Cache by replaying random histories (1-3 handles on one file, reopen, virtual clock, hostile names) and comparing every return value and the raw tables after every step; the abstract-map oracle is also evaluated on the implementation's own answers.",
+   "Trusted: Coq kernel; SQLite/rusqlite semantics of the statement forms used (DESIGN 3.5, monitored by the row-level comparison); hand-written statement model; translator pins; harness. Real thread/process interleavings are the subject of C09/C11.",
+   "DESIGN.md section 8 C08, Appendix B"),
+ "C03": ("proof",
+   "Coq theorems (Props/C03.v): for every history, get_latest_version on the tables is a_latest of the abstract entry (C03_latest_of_history, via the C08 refinement); the cached 'latest' tag wins; the answer is always a cached tag or a stored string; without a tag it is parsable, not a prerelease when prereleases are ignored, and no stored admissible version is greater in the (proved total) order of semver::Version; it is independent of order/batching/repetition of the stores up to spellings of one version, and of every other key. Tied to the code by the cache history stream (model vs real Cache, raw tables), a latest-oracle evaluated in Coq on every latest read of the implementation, and a stream validating Lib.SemVer / parse_version / the bump calculators against the semver crate.",
+   "Trusted: as C08, plus Lib.SemVer as a model of the third-party semver crate (parse, derived Ord with build metadata, Display), correspondence-checked.",
+   "DESIGN.md section 8 C03"),
 }
 props = [json.loads(l)['id'] for l in open(os.path.join(HERE, 'properties.jsonl'))]
 checks = []
